@@ -653,6 +653,8 @@ func buildScenario(k scenKey, f lib.Flags) *Scenario {
 		sc = boundaryInitFaultPrunedScenario(k)
 	case "prune-mixed":
 		sc = pruneMixedScenario(k, f.Scale(8, 12))
+	case "l2-service":
+		sc = l2ServiceScenario(k)
 	case "boundary-directed-killed":
 		sc = boundaryScenario(k, false, true, 0)
 	case "boundary-directed-graceful":
@@ -718,6 +720,16 @@ func runJobs(r *runner, keys []scenKey) {
 		wg.Add(1)
 		go func() {
 			defer wg.Done()
+			if k.Family == "l2-matrix" {
+				defer func() {
+					if p := recover(); p != nil {
+						r.res.Violate(lib.Violation{Sig: "fault-free-source-node-fails", What: fmt.Sprintf("building history %s/%d: %v", k.Family, k.Seed, p),
+							Replay: map[string]any{"scenario": k.Family, "seed": k.Seed, "src_new_state": k.SrcNew, "dst_new_state": k.DstNew, "backend": k.Backend}})
+					}
+				}()
+				r.runL2Matrix(k)
+				return
+			}
 			r.runScenario(func() (sc *Scenario) {
 				// the chain generator runs juno's own Finalise / RevertHead on its source node; when
 				// that fails without any fault the history cannot even be manufactured
@@ -818,6 +830,16 @@ func main() {
 		// random histories of a pruning node
 		for i := 0; i < f.Scale(3, 12); i++ {
 			keys = append(keys, scenKey{"prune-mixed", f.Seed*1000 + uint64(i), i%2 == 0, (uint64(i)+f.Seed)%2 == 0, "memory"})
+		}
+		// the L2 path of the pruner service (Pruner.onNewBlock): directed histories with every fault,
+		// and the exhaustive matrix of event bursts on a small node (one backend per seed)
+		for i := 0; i < f.Scale(2, 8); i++ {
+			keys = append(keys, scenKey{"l2-service", f.Seed*1000 + uint64(i), i%2 == 1, (uint64(i)+f.Seed)%2 == 0, "memory"})
+		}
+		keys = append(keys, scenKey{"l2-matrix", f.Seed, f.Seed%2 == 0, f.Seed%2 == 1, "memory"})
+		if f.Thorough() {
+			keys = append(keys, scenKey{"l2-matrix", f.Seed, f.Seed%2 == 1, f.Seed%2 == 0, "memory"})
+			keys = append(keys, scenKey{"l2-service", f.Seed*1000 + 900, true, true, "pebble"})
 		}
 		// class declarations / migrations / L1-handler messages stored, reverted and stored again
 		for i := 0; i < f.Scale(2, 6); i++ {
